@@ -210,6 +210,8 @@ def specs(tier: str) -> list[Spec]:
         Spec("wait(w=1,n=1)", {"family": "wait"}, lambda: wf_wait(1, n=1), scripts=resp_scripts(1), resume=True, max_dev=d + 1),
         Spec("wait(w=2,n=2)", {"family": "wait"}, lambda: wf_wait(2, n=2), scripts=resp_scripts(2), resume=True, max_dev=d),
     ]
+    # two pauses in one execution (the second snapshot is taken from an already resumed run); more of these in the thorough tier
+    sp.append(Spec("fan(2,2)/2x", {"family": "fan", "resumes": 2}, lambda: wf_fan(2, 2), resume=True, resume_count=2, max_dev=(4 if q else None)))
     if not q:
         sp += [Spec("fan(4,2)", {"family": "fan"}, lambda: wf_fan(4, 2), resume=True, max_dev=4),
                Spec("recover(3)", {"family": "recover"}, lambda: wf_recover(3), resume=True)]
